@@ -69,3 +69,15 @@ Definition v2_possible (x : bytes) : bool :=
             end
        | _ => true   (* fewer than 16 bytes: the control bytes that are present are not examined *)
        end.
+
+(* the partition of the payload stated by C14: the address block has the size of the family (the
+   whole payload for the unspecified family); the TLV section is what follows it *)
+Definition spec_address_len (h : header2) : N :=
+  match address_family (haddresses h) with
+  | FUnspec => lenN (hbytes h) - 16
+  | f => fam_size f
+  end.
+Definition spec_address_bytes (h : header2) : bytes :=
+  firstn (N.to_nat (spec_address_len h)) (skipn 16 (hbytes h)).
+Definition spec_tlv_section (h : header2) : bytes :=
+  skipn (N.to_nat (spec_address_len h)) (skipn 16 (hbytes h)).
